@@ -18,8 +18,19 @@ PRELUDE = r'''
 #[verifier::external_body] pub struct DataRest { _p: u8 }
 #[verifier::external_body] pub struct InputRest { _p: u8 }
 pub struct Field { pub attrs: Vec<Attribute>, pub rest: FieldRest }
-pub type Fields = Vec<Field>;
 pub struct FieldsNamed { pub named: Vec<Field>, pub rest: DataRest }
+pub struct FieldsUnnamed { pub unnamed: Vec<Field>, pub rest: DataRest }
+pub enum Fields { Named(FieldsNamed), Unnamed(FieldsUnnamed), Unit }
+/// the fields in the order syn's Fields::iter_mut() yields them
+pub open spec fn seq_of(f: Fields) -> Seq<Field> { match f { Fields::Named(x) => x.named@, Fields::Unnamed(x) => x.unnamed@, Fields::Unit => Seq::empty() } }
+/// everything of a Fields value but the fields themselves: which of the three shapes it is, and the shape's rest (braces / parentheses)
+pub open spec fn frame_of(f: Fields) -> (int, Option<DataRest>) { match f { Fields::Named(x) => (0, Some(x.rest)), Fields::Unnamed(x) => (1, Some(x.rest)), Fields::Unit => (2, None) } }
+/// T4 - syn: `Fields::iter_mut()` iterates over the named / unnamed fields (none for Unit); as a mutable view of that list (ASSUMED: the list is
+/// the only part of the value reachable through it)
+#[verifier::external_body]
+fn fields_vec_mut(f: &mut Fields) -> (r: &mut Vec<Field>)
+    ensures r@ == seq_of(*old(f)), seq_of(*final(f)) == final(r)@, frame_of(*final(f)) == frame_of(*old(f))
+{ unimplemented!() }
 pub struct Variant { pub attrs: Vec<Attribute>, pub fields: Fields, pub rest: VariantRest }
 pub struct DataEnum { pub variants: Vec<Variant>, pub rest: DataRest }
 pub struct DataStruct { pub fields: Fields, pub rest: DataRest }
@@ -36,14 +47,16 @@ pub open spec fn field_stripped(o: Field, n: Field) -> bool { n.attrs@ == kept(o
 pub open spec fn fields_stripped(o: Seq<Field>, n: Seq<Field>) -> bool {
     n.len() == o.len() && forall|k: int| 0 <= k < o.len() ==> field_stripped(#[trigger] o[k], n[k])
 }
+/// a Fields value: same shape, same rest, every field stripped
+pub open spec fn shape_stripped(o: Fields, n: Fields) -> bool { frame_of(n) == frame_of(o) && fields_stripped(seq_of(o), seq_of(n)) }
 pub open spec fn variant_stripped(o: Variant, n: Variant) -> bool {
-    n.attrs@ == kept(o.attrs@) && fields_stripped(o.fields@, n.fields@) && n.rest == o.rest
+    n.attrs@ == kept(o.attrs@) && shape_stripped(o.fields, n.fields) && n.rest == o.rest
 }
 pub open spec fn data_stripped(o: Data, n: Data) -> bool {
     match (o, n) {
         (Data::Enum(a), Data::Enum(b)) => b.rest == a.rest && b.variants@.len() == a.variants@.len()
             && forall|k: int| 0 <= k < a.variants@.len() ==> variant_stripped(#[trigger] a.variants@[k], b.variants@[k]),
-        (Data::Struct(a), Data::Struct(b)) => b.rest == a.rest && fields_stripped(a.fields@, b.fields@),
+        (Data::Struct(a), Data::Struct(b)) => b.rest == a.rest && shape_stripped(a.fields, b.fields),
         (Data::Union(a), Data::Union(b)) => b.rest == a.rest && b.fields.rest == a.fields.rest && fields_stripped(a.fields.named@, b.fields.named@),
         _ => false,
     }
@@ -95,12 +108,13 @@ STRIP = [
         note='Vec::retain with a closure over quote / proc_macro2 printing: ASSUMED to keep exactly the attributes whose path is not `typeshare`'),
     # ---- nested fn remove_configuration_from_fields
     ins(A.sig(fn='remove_configuration_from_fields'), '''
-        ensures /*C19: every field of the list, nothing but its typeshare attributes*/ fields_stripped(old(fields)@, final(fields)@),
+        ensures /*C19: every field - named or unnamed - and nothing but its typeshare attributes*/ shape_stripped(*old(fields), *final(fields)),
     ''', cid='remove_configuration_from_fields.contract'),
     ins(A.body_start(fn='remove_configuration_from_fields'), '''
-        let ghost f0 = fields@;'''),
-    ins(A.text('fields.iter_mut()', nth=1), 'itf: ', where='before', tag='T4'),
-    ins(A.loop(0, fn='remove_configuration_from_fields'), ITER_INV.format(it='itf', v0='f0', vec='fields', rel='field_stripped') + '''                f0 == old(fields)@,
+        let ghost f0 = seq_of(*fields);
+        let fv__ = fields_vec_mut(fields);'''),
+    rep(A.text('fields.iter_mut()', nth=1), 'itf: fv__.iter_mut()', tag='T4', note='syn::Fields::iter_mut() as iteration over the list of its fields'),
+    ins(A.loop(0, fn='remove_configuration_from_fields'), ITER_INV.format(it='itf', v0='f0', vec='fv__', rel='field_stripped') + '''                f0 == seq_of(*old(fields)),
 ''', cid='remove_configuration_from_fields.invariant'),
     ins(A.loop_body(0, fn='remove_configuration_from_fields'), '''
             let ghost j0 = itf.index@;
@@ -151,7 +165,7 @@ UNIT = Unit(
     functions=['strip_configuration_attribute', 'strip_configuration_attribute::remove_configuration_from_attributes', 'strip_configuration_attribute::remove_configuration_from_fields', 'typeshare'],
     trusted=[
         'T7: syn::DeriveInput / Data / DataEnum / DataStruct / DataUnion / Variant / Field as plain structs holding what the code touches (attrs, fields, variants) '
-        'plus an opaque rest; Punctuated<T, P> as Vec<T>; syn::Fields as the sequence of its fields; proc_macro::TokenStream opaque',
+        'plus an opaque rest; Punctuated<T, P> as Vec<T>; syn::Fields as an enum Named / Unnamed / Unit whose iter_mut() is a mutable view of the field list (assumed); proc_macro::TokenStream opaque',
         'ASSUMED: Vec::retain with the source\'s closure keeps exactly the attributes whose path does not print as `typeshare` (is_config: uninterpreted)',
         'vstd\'s prophetic specification of slice::IterMut is trusted',
         'ASSUMED: syn::parse::<DeriveInput> and quote printing are functions of their argument (parsed / printed: uninterpreted); printing a tree whose '
